@@ -364,7 +364,8 @@ class TextXMetaModel(DebugPrinter):
 
         # Enter namespace for given file or None if metamodel is
         # constructed from string.
-        self._enter_namespace(self._namespace_for_file_name(file_name))
+        self._main_namespace = self._namespace_for_file_name(file_name)
+        self._enter_namespace(self._main_namespace)
 
     def register_scope_providers(self, sp):
         self.scope_providers = sp
@@ -416,7 +417,10 @@ class TextXMetaModel(DebugPrinter):
         # Find the absolute file name of the import based on the relative
         # import_name and current namespace
         current_namespace = self._namespace_stack[-1]
-        if "." in current_namespace:
+        # The main grammar is located in the root folder whatever its file
+        # name is (the name may contain dots, e.g. `my.grammar.tx`). Only
+        # the namespace of an imported grammar has a folder part.
+        if current_namespace != self._main_namespace and "." in current_namespace:
             root_namespace = current_namespace.rsplit(".", 1)[0]
             import_name = f"{root_namespace}.{import_name}"
 
